@@ -38,7 +38,7 @@ ID_FAMILIES = [
 ]
 # (several keys that become ONE route on the server: trailing-slash twin, query-string variants)
 PATHS = ["/pets", "/pets/{id}", "/users", "/users/{id}/x", "/a", "/b", "/pets/", "/a?x=1", "/a?x=2"]
-METHODS = ["get", "post", "put", "delete", "patch", "head"]
+METHODS = ["get", "post", "put", "delete", "patch", "head", "trace", "options"]   # (the oas3 crate yields TRACE twice per path item: finding F08-6, repaired)
 
 
 def rand_ops(r):
